@@ -62,7 +62,8 @@ class Result(object):
 class Usim(object):
     """One usim child process; restarted transparently when it dies or after a verdict."""
 
-    def __init__(self, flavour="plain", stderr_path=None, extra_env=None):
+    def __init__(self, flavour="plain", stderr_path=None, extra_env=None, wrapper=None):
+        self.wrapper = list(wrapper or [])
         self.flavour = flavour
         self.path = os.path.join(BUILD, flavour, "usim")
         self.proc = None
@@ -84,7 +85,7 @@ class Usim(object):
         env = dict(os.environ)
         env.setdefault("USCXML_NOCACHE_FILES", "1")
         env.update(self.extra_env)
-        args = [self.path]
+        args = self.wrapper + [self.path]
         if self.stderr_path:
             args.append("-v")
             errf = open(self.stderr_path, "ab")
